@@ -1,12 +1,15 @@
 // Ownership / aliasing of the buffers that cross the compressor boundary (ops `held`, `flight`).
 //
 // held:   keep K earlier results of Encode / Decode / readFrame alive, run further codec calls (any
-//         number, any sizes, either codec, this or another goroutine), let the caller scribble over its
-//         input buffers, then compare every held result byte-exact with what the specification says
-//         that call returns (the Lean heap machine answers: the value is independent of later ops).
+//
+//	number, any sizes, either codec, this or another goroutine), let the caller scribble over its
+//	input buffers, then compare every held result byte-exact with what the specification says
+//	that call returns (the Lean heap machine answers: the value is independent of later ops).
+//
 // flight: the same through real connections: compression negotiated with a scripted peer, 2-4
-//         responses in flight on one or two connections, consumers (Iter.Scan, SUPPORTED map, raw
-//         body) reading in permuted order after later responses were received and decoded.
+//
+//	responses in flight on one or two connections, consumers (Iter.Scan, SUPPORTED map, raw
+//	body) reading in permuted order after later responses were received and decoded.
 //
 // All waiting is on events (request read by the peer, exec returned), never on elapsed time; the only
 // clocks are watchdogs of 30 s that answer `timeout` (with a goroutine dump on stderr).
@@ -446,8 +449,15 @@ func flightStep(codec string, conns map[int]*flightConn, reqs map[int]*flightReq
 				rq.pend, rq.err = gocql.VerifC18dExec(fc.conn, "register", "E", 10*time.Minute)
 			}
 		}()
+	nextReq:
 		select {
 		case sf := <-fc.reqs:
+			if sf.op == 0x05 && rq.kind != "opt" {
+				// Conn.heartBeat's OPTIONS (one second after the startup; a scenario on a loaded machine
+				// may take that long): answered, not taken for the request of this step
+				writeSrvFrame(fc.srv, 0, 0x06, sf.stream, supportedBody([]kv{{"A", []string{"x"}}}))
+				goto nextReq
+			}
 			rq.stream = sf.stream
 			// what the peer decodes is what the client encoded: the request body through the
 			// independent decoder (OPTIONS is never compressed and has no body)
